@@ -71,6 +71,14 @@ def check(ck):
             elif k_true is True:
                 ck.require(t == ("param", kw), "C01.1", label, "non-empty kwargs forwarded unchanged",
                            "keyword arguments are given but %s is sent" % prov.show(t), q.loc(fi, g.nodes[nid]), ex.describe_path(st))
+            elif a_true is False and k_true is None:
+                ck.require(t == ("param", kw), "C01.1", label, "kwargs forwarded when args is empty",
+                           "positional arguments are empty (keyword arguments may be given) but %s is sent: keyword arguments are dropped" % prov.show(t),
+                           q.loc(fi, g.nodes[nid]), ex.describe_path(st))
+            elif k_true is False and a_true is None:
+                ck.require(t == ("param", va), "C01.1", label, "args forwarded when kwargs is empty",
+                           "keyword arguments are empty (positional arguments may be given) but %s is sent: positional arguments are dropped" % prov.show(t),
+                           q.loc(fi, g.nodes[nid]), ex.describe_path(st))
             else:
                 ck.require(t in (("param", va), ("param", kw)), "C01.1", label, "an (empty) argument collection is forwarded",
                            "%s is sent instead of the caller's arguments" % prov.show(t), q.loc(fi, g.nodes[nid]), ex.describe_path(st))
@@ -187,7 +195,10 @@ def check(ck):
     seen = set()
     for st in states_at(ex, ("return",)):
         nid, facts, cnt = st
-        found = dict(facts).get("func is not None")
+        fdct = dict(facts)
+        found = fdct.get("func is not None")
+        if found is None and "func is None" in fdct:
+            found = not fdct["func is None"]
         if (nid, cnt, found) in seen:
             continue
         seen.add((nid, cnt, found))
